@@ -614,8 +614,44 @@ def rule_n(R, ctx, rid="C16.n"):
              ins[0].loc() if ins else None)
 
 
+def rule_o(R, ctx, rid="C16.o"):
+    from .accessors import _canon
+    Y = ctx.yrs
+    R.rule(rid, "R-PROV the answer of IdMap::attributions tiles the queried range: the un-attributed pieces it adds are (a) inside the "
+                "loop, from a running end that STARTS at the query's first clock (`range.clock` is one of the definitions of the gap's "
+                "start) up to the clipped start of the entry at hand, (b) behind the last piece up to range.clock + range.len, and (c) "
+                "the whole range when nothing overlaps — a running end that starts at the first entry instead drops the points in "
+                "front of it")
+    fn = Y.fn("yrs::id_map::IdMap::attributions")
+    v = FnView(fn)
+    gaps = fn.calls_to("re:AttrRange<.*>::new$", "re:AttrRange::new$")
+    R.floor(rid, "un-attributed pieces built in attributions", len(gaps), 3)
+    seen = set()
+    for cs in gaps:
+        t = simp_deep(v.arg(cs, 0, 12))
+        if not (t[0] == "agg" and len(t[2]) == 2):
+            R.ob(rid, fn, "gap@bb%d" % cs.bb, False, "not a start..end range: %s" % sshow(t))
+            continue
+        start, end = _canon(t[2][0]), _canon(t[2][1])
+        alts = [a.strip() for a in start.split(" | ")]
+        whole_end = "(range.clock + range.len)"
+        if fn.cfg().in_loop(cs.bb):
+            seen.add("leading")
+            R.ob(rid, fn, "gap:leading", "range.clock" in alts and not any("map_or" in a or "last(" in a for a in alts),
+                 "the running end starts at range.clock: %s" % start if "range.clock" in alts else
+                 "the in-loop gap starts at %s — no definition is the query's first clock: the points in front of the first entry are lost" % start, cs.loc())
+        elif start == "range.clock":
+            seen.add("whole")
+            R.ob(rid, fn, "gap:whole", end == whole_end, "whole range: %s..%s" % (start, end), cs.loc())
+        else:
+            seen.add("trailing")
+            R.ob(rid, fn, "gap:trailing", end == whole_end and "range.end" in start, "trailing gap: %s..%s" % (start, end), cs.loc())
+    R.ob(rid, fn, "three-gaps", seen == {"leading", "whole", "trailing"}, "gap kinds built: %s" % sorted(seen))
+
+
 def check(ctx, R):
     from . import shared as _sh
+    R.run("C16.o", rule_o, ctx)
     R.run("C16.n", rule_n, ctx)
     R.run("C16.m", lambda R, c: _sh.api_delegations(
         R, c, "C16.m", _sh.IDSET_DELEGATIONS,
